@@ -322,7 +322,7 @@ def boundary_cases(family):
         for d in (-1, 101):
             yield ('set_ongrid_battery_dod', (d,), 'silent')
         for mode in (OM.ECO_CHARGE, OM.ECO_DISCHARGE):
-            for bad in (-1, 101, 1000):
+            for bad in (-1, -50, -100, 101, 1000):
                 yield ('set_operation_mode', (mode, bad, 50), 'ValueError')
                 yield ('set_operation_mode', (mode, 50, bad), 'ValueError')
     yield ('write_setting', ('no_such_setting', 1), 'ValueError')
@@ -332,6 +332,10 @@ def legal_priors(family):
     out = [('set_grid_export_limit', (100,)), ('write_setting', ('grid_export_limit', 7))]
     if family != 'DT':
         out += [('set_operation_mode', (m, 50, 50)) for m in OM] + [('set_ongrid_battery_dod', (40,))]
+        # monitoring calls that read the eco-mode groups (they leave the decoded schedule type on the setting objects)
+        out += [('read_setting', ('eco_mode_1',)), ('read_setting', ('eco_mode_2',)), ('read_settings_data', ()),
+                ('get_operation_mode', ())]
+    out += [('read_runtime_data', ())]
     return out
 
 
@@ -446,7 +450,10 @@ def run(tier, seed, rep):
         ns += n
         rep.add_many(res)
     nsa = 0
-    for n, res in pmap(job_setters_after, list(reps.values())):
+    # (every eco-mode register content of the configuration list: the groups may hold peak-shaving / 745 typed schedules)
+    sa_cfgs = list(reps.values()) + [c for c in cfgs if c['family'] != 'DT' and c['refused'] == () and c['eco'] != 'off' and
+                                     c not in reps.values()]
+    for n, res in pmap(job_setters_after, sa_cfgs):
         nsa += n
         rep.add_many(res)
     for c in reps.values():
